@@ -1,6 +1,8 @@
 import MJ.Proofs.Num
 import MJ.Proofs.NumLex
 import MJ.Proofs.NumF
+import MJ.Proofs.NumX
+import MJ.Proofs.NumRound
 import MJ.Gen.Tables
 /-!
 # C08 — numeric operators are exact or fail; they never wrap or lose the sign
@@ -37,7 +39,7 @@ theorem repr_covers (x : Int) :
     1. a successful binary operator returns the exact integer (well-formed, so it prints as such);
     2. so does unary minus;
     3. the operator succeeds whenever operands and exact result fit the signed 128-bit range and
-       the operation is defined (non-zero divisor; exponent in `[0, 2^32)`);
+       the operation is defined (non-zero divisor; non-negative exponent);
     4. same for unary minus;
     5. the outcome depends only on the mathematical operands, not on the stored widths;
     6. same for unary minus;
@@ -86,12 +88,19 @@ theorem binop_eq (op : Op) {a b : NumRepr} (ha : a.WF) (hb : b.WF) :
           | .mul => finish (checkedMul a.val b.val)
           | .floordiv => if b.val ≠ 0 then finish (checkedDivEuclid a.val b.val) else .err
           | .rem => finish (if b.val = -1 then some 0 else checkedRemEuclid a.val b.val)
-          | .pow => if 0 ≤ b.val ∧ b.val < 4294967296 then finish (checkedPow a.val b.val.toNat) else .err)
+          | .pow =>
+            match powChecked a.val b.val with
+            | some v => .ok (intAsValue v)
+            | none =>
+              if 0 < b.val ∧ -1 ≤ a.val ∧ a.val ≤ 1 then
+                .ok (intAsValue (if b.val % 2 = 0 then a.val * a.val else a.val))
+              else .err)
       else .err := by
   by_cases h : InI128 a.val ∧ InI128 b.val
   · rw [if_pos h]
     have hc := coerce_some ha hb h.1 h.2
     cases op <;> simp only [binop, add, sub, mul, intDiv, rem, pow, hc]
+    cases powChecked a.val b.val <;> rfl
   · rw [if_neg h]
     have hc := coerce_none ha hb h
     cases op <;> simp only [binop, add, sub, mul, intDiv, rem, pow, hc]
@@ -175,10 +184,29 @@ theorem int_op_exact (op : Op) (a b r : NumRepr) (ha : a.WF) (hb : b.WF)
     | pow =>
       simp only [] at h
       split at h
-      · refine fin h (fun v hv => ?_)
-        rw [checkedPow_eq_chk] at hv
-        exact chkc hv
-      · cases h
+      · rename_i v hv
+        injection h with h
+        subst h
+        unfold powChecked at hv
+        split at hv
+        · rw [checkedPow_eq_chk] at hv
+          obtain ⟨h1, h2⟩ := chkc hv
+          exact ⟨intAsValue_wf h2, by rw [intAsValue_val, h1]; rfl⟩
+        · cases hv
+      · split at h
+        · rename_i hu
+          injection h with h
+          subst h
+          have hp := MJ.NumX.unit_pow a.val ⟨hu.2.1, hu.2.2⟩ b.val.toNat (by omega)
+          have hpar : (b.val.toNat % 2 = 0) ↔ (b.val % 2 = 0) := by omega
+          have hval : (if b.val % 2 = 0 then a.val * a.val else a.val) = a.val ^ b.val.toNat := by
+            rw [hp]
+            by_cases he : b.val % 2 = 0
+            · rw [if_pos he, if_pos (hpar.2 he)]
+            · rw [if_neg he, if_neg (fun h => he (hpar.1 h))]
+          rw [hval]
+          exact ⟨intAsValue_wf (MJ.NumX.unit_pow_in a.val ⟨hu.2.1, hu.2.2⟩ _), by rw [intAsValue_val]; rfl⟩
+        · cases h
   · cases h
 
 /-- 2. exactness of unary minus, for every operand except `2^127` -/
@@ -276,11 +304,28 @@ theorem int_op_total_in_range (op : Op) (a b : NumRepr) (ha : a.WF) (hb : b.WF)
       rw [if_neg hno]
       exact ⟨_, rfl⟩
   | pow =>
-    have hb0 : 0 ≤ b.val ∧ b.val < 4294967296 := hdef
+    have hb0 : 0 ≤ b.val := hdef
     simp only []
     have hres' : InI128 (a.val ^ b.val.toNat) := hres
-    rw [if_pos hb0, checkedPow_eq_chk, chk_of_in hres']
-    exact ⟨_, rfl⟩
+    by_cases hsmall : b.val < 4294967296
+    · have : powChecked a.val b.val = some (a.val ^ b.val.toNat) := by
+        unfold powChecked
+        rw [if_pos ⟨hb0, hsmall⟩, checkedPow_eq_chk, chk_of_in hres']
+      rw [this]
+      exact ⟨_, rfl⟩
+    · -- an exponent beyond u32: the power only fits for the bases 0, 1, -1
+      have hnone : powChecked a.val b.val = none := by
+        unfold powChecked
+        rw [if_neg (fun h => hsmall h.2)]
+      rw [hnone]
+      have hunit : -1 ≤ a.val ∧ a.val ≤ 1 := by
+        by_cases hu : -1 ≤ a.val ∧ a.val ≤ 1
+        · exact hu
+        · exfalso
+          exact pow_big_not_in (a := a.val) (e := b.val.toNat) (by omega) (by omega) hres'
+      simp only []
+      rw [if_pos ⟨by omega, hunit.1, hunit.2⟩]
+      exact ⟨_, rfl⟩
 
 /-- 4. totality of unary minus on the signed 128-bit range -/
 theorem neg_total_in_range (a : NumRepr) (ha : a.WF) (hin : InI128 a.val) (hres : InI128 (-a.val)) :
@@ -411,10 +456,13 @@ example : binop .floordiv (.i64 (-7)) (.u64 2) = .ok (.i64 (-4)) ∧
 /-- `i128::MIN % -1 = 0` (an error before the fix), `i128::MIN // -1` is an error -/
 example : binop .rem (.i128 (-170141183460469231731687303715884105728)) (.i64 (-1)) = .ok (.i64 0) ∧
     binop .floordiv (.i128 (-170141183460469231731687303715884105728)) (.i64 (-1)) = .err := by decide
-/-- `**`: `(-2) ** 127 = i128::MIN` is exact, `2 ** 127` overflows, `1 ** 2^32` is rejected -/
+/-- `**`: `(-2) ** 127 = i128::MIN` is exact, `2 ** 127` overflows, `1 ** 2^32 = 1` and
+    `(-1) ** (2^64 + 1) = -1` (errors before fix 3a8d5c6), `2 ** 2^32` overflows -/
 example : binop .pow (.i64 (-2)) (.u64 127) = .ok (.i128 (-170141183460469231731687303715884105728)) ∧
     binop .pow (.u64 2) (.u64 127) = .err ∧
-    binop .pow (.u64 1) (.u64 4294967296) = .err := by decide
+    binop .pow (.u64 1) (.u64 4294967296) = .ok (.i64 1) ∧
+    binop .pow (.i64 (-1)) (.u128 18446744073709551617) = .ok (.i64 (-1)) ∧
+    binop .pow (.u64 2) (.u64 4294967296) = .err ∧ binop .pow (.u64 1) (.i64 (-1)) = .err := by decide
 /-- width independence instance: `2^64` as `u128` and as `i128` -/
 example : binop .mul (.u128 18446744073709551616) (.i64 (-3)) =
     binop .mul (.i128 18446744073709551616) (.i128 (-3)) := by decide
@@ -938,6 +986,631 @@ example : eatNumber "0x10000000000000000 + 1".toList = (.int128 1844674407370955
     eatNumber "1.foo".toList = (.int 1, ".foo".toList) ∧
     (eatNumber "0b12".toList).1 = .err ∧ (eatNumber "1_".toList).1 = .err ∧
     (eatNumber "340282366920938463463374607431768211456".toList).1 = .err := by decide
+
+/-! ## Round 5: `**` completely, `Bool` operands, tests and filters, strings, float arithmetic -/
+section Round5
+open MJ.NumX MJ.Cmp MJ.CmpKey MJ.CmpNum
+
+/-! ### `**` completely -/
+
+/-- **`**` is exact**: whatever the widths of base and exponent, a successful power is the
+    mathematical power, base and exponent are `i128`s and the exponent is not negative -/
+theorem pow_exact (a b r : NumRepr) (ha : a.WF) (hb : b.WF) (h : binop .pow a b = .ok r) :
+    r.WF ∧ r.val = a.val ^ b.val.toNat ∧ 0 ≤ b.val ∧ InI128 a.val ∧ InI128 b.val := by
+  obtain ⟨hwf, hval⟩ := int_op_exact .pow a b r ha hb h
+  refine ⟨hwf, hval, ?_⟩
+  rw [binop_eq .pow ha hb] at h
+  split at h
+  · rename_i hin
+    refine ⟨?_, hin.1, hin.2⟩
+    simp only [] at h
+    split at h
+    · rename_i v hv
+      unfold powChecked at hv
+      split at hv
+      · rename_i hr; exact hr.1
+      · cases hv
+    · split at h
+      · rename_i hu; omega
+      · cases h
+  · cases h
+
+/-- **`**` succeeds whenever the power fits**, for every non-negative exponent of the signed
+    128-bit range — the exponent is never narrowed -/
+theorem pow_total_in_range (a b : NumRepr) (ha : a.WF) (hb : b.WF) (hia : InI128 a.val)
+    (hib : InI128 b.val) (h0 : 0 ≤ b.val) (hres : InI128 (a.val ^ b.val.toNat)) :
+    ∃ r, binop .pow a b = .ok r ∧ r.val = a.val ^ b.val.toNat := by
+  obtain ⟨r, hr⟩ := int_op_total_in_range .pow a b ha hb hia hib h0 hres
+  exact ⟨r, hr, (int_op_exact .pow a b r ha hb hr).2⟩
+
+/-- an exponent of 128 or more with a base of magnitude 2 or more is an error — whatever its low
+    32 bits are (the exact power has more than 127 bits) -/
+theorem pow_large_exponent_error (a b : NumRepr) (ha : a.WF) (hb : b.WF) (h2 : 2 ≤ a.val.natAbs)
+    (he : 128 ≤ b.val) : binop .pow a b = .err := by
+  rw [binop_eq .pow ha hb]
+  split
+  · simp only []
+    have hnone : powChecked a.val b.val = none := by
+      unfold powChecked
+      split
+      · unfold checkedPow
+        rw [if_pos ⟨h2, by omega⟩]
+      · rfl
+    rw [hnone]
+    simp only []
+    rw [if_neg (by omega)]
+  · rfl
+
+/-- a negative exponent is an error, never a wrong integer -/
+theorem pow_negative_exponent_error (a b : NumRepr) (ha : a.WF) (hb : b.WF) (h : b.val < 0) :
+    binop .pow a b = .err := by
+  rw [binop_eq .pow ha hb]
+  split
+  · simp only []
+    have hnone : powChecked a.val b.val = none := by
+      unfold powChecked
+      rw [if_neg (by omega)]
+    rw [hnone]
+    simp only []
+    rw [if_neg (by omega)]
+  · rfl
+
+example : ∃ r, binop .pow (.i128 (-1)) (.u128 170141183460469231731687303715884105727) = .ok r ∧ r.val = -1 :=
+  ⟨.i64 (-1), by decide, rfl⟩
+example : binop .pow (.u64 3) (.u128 4294967297) = .err ∧ binop .pow (.i64 (-2)) (.u64 128) = .err ∧
+    binop .pow (.u64 2) (.u64 126) = .ok (.i128 85070591730234615865843651857942052864) := by decide
+
+/-! ### float `+ - *`: exact whenever the exact result is a double -/
+
+theorem float_add_exact (a b : Nat) (h : Representable (key a + key b).natAbs) :
+    key (fadd a b) = key a + key b ∧ isFinite (fadd a b) = true := key_fadd a b h
+
+theorem float_sub_exact (a b : Nat) (h : Representable (key a - key b).natAbs) :
+    key (fsub a b) = key a - key b ∧ isFinite (fsub a b) = true := by
+  unfold fsub
+  have := key_fadd a (fneg b) (by rw [key_fneg]; rwa [Int.sub_eq_add_neg] at h)
+  rwa [key_fneg, ← Int.sub_eq_add_neg] at this
+
+/-- the product: `key` is in units of `2^-1074`, so the exact product of the values is
+    `key a · key b / 2^1074` -/
+theorem float_mul_exact (a b m : Nat) (hm : m < infMag)
+    (h : scaledOfMag m * scale = scaled a * scaled b) :
+    key (fmul a b) * (scale : Int) = key a * key b ∧ isFinite (fmul a b) = true := by
+  unfold fmul
+  rw [← h, encodeRat_mul _ _ scale_pos', encodeRat_exact m hm]
+  obtain ⟨hk, hf, _, _⟩ := key_signedBits (sign a != sign b) m hm
+  refine ⟨?_, hf⟩
+  rw [hk, key_eq a, key_eq b]
+  have h' : ((scaledOfMag m : Nat) : Int) * (scale : Int) = (scaled a : Int) * (scaled b : Int) := by
+    exact_mod_cast h
+  cases sign a <;> cases sign b <;> simp only [bne_self_eq_false, Bool.false_eq_true, if_false, if_true,
+    Bool.true_bne, Bool.false_bne, Bool.not_false, Int.neg_mul, Int.mul_neg, Int.neg_neg] <;> omega
+
+-- 0.1 + 0.2 is the double 0.30000000000000004; 1.5 * 2.5 = 3.75 exactly; 1e308 * 10 overflows to +inf;
+-- 2^-1074 * 0.5 is a tie between 0 and the smallest subnormal and rounds to (even) 0
+set_option exponentiation.threshold 3000 in
+set_option maxRecDepth 100000 in
+example : fadd 0x3fb999999999999a 0x3fc999999999999a = 0x3fd3333333333334 ∧
+    fmul 0x3ff8000000000000 0x4004000000000000 = 0x400e000000000000 ∧
+    fmul 0x7fe1ccf385ebc8a0 0x4024000000000000 = 0x7ff0000000000000 ∧
+    fmul 0x0000000000000001 0x3fe0000000000000 = 0 ∧
+    fsub 0x3ff0000000000000 0x3ff0000000000000 = 0 ∧
+    fadd 0x8000000000000000 0x8000000000000000 = 0x8000000000000000 := by decide
+
+
+/-! ### `Bool` operands -/
+
+/-- **a `Bool` operand is the integer 0 / 1**: in each of `+ - * // % **` a `Bool` on either side
+    gives exactly what the `u64` 0 or 1 gives (`true + 1 = 2`, `true * true = 1`, `true // 2 = 0`) -/
+theorem bool_operand_as_u64 (op : Op) (a b : IOpnd) (ha : a.WF) (hb : b.WF) :
+    binopX op a b = binop op (embed a) (embed b) := by
+  unfold binopX
+  rw [coerceX_embed ha hb, binop_eq_opOn]
+
+/-- exactness with `Bool` operands -/
+theorem bool_arith_exact (op : Op) (a b : IOpnd) (r : NumRepr) (ha : a.WF) (hb : b.WF)
+    (h : binopX op a b = .ok r) : r.WF ∧ r.val = op.denote a.val b.val := by
+  rw [bool_operand_as_u64 op a b ha hb] at h
+  have := int_op_exact op _ _ r (embed_wf ha) (embed_wf hb) h
+  rwa [embed_val, embed_val] at this
+
+/-- totality with `Bool` operands -/
+theorem bool_arith_total (op : Op) (a b : IOpnd) (ha : a.WF) (hb : b.WF) (hia : InI128 a.val)
+    (hib : InI128 b.val) (hdef : op.Defined a.val b.val) (hres : InI128 (op.denote a.val b.val)) :
+    ∃ r, binopX op a b = .ok r := by
+  rw [bool_operand_as_u64 op a b ha hb]
+  apply int_op_total_in_range op _ _ (embed_wf ha) (embed_wf hb) <;> rw [embed_val] <;>
+    first | assumption | (rw [embed_val]; assumption)
+
+/-- the outcome depends only on the numbers the operands stand for: a `Bool` against any width of
+    the other operand, or against another `Bool` -/
+theorem bool_width_independent (op : Op) (a a' b b' : IOpnd) (ha : a.WF) (ha' : a'.WF) (hb : b.WF)
+    (hb' : b'.WF) (hva : a.val = a'.val) (hvb : b.val = b'.val) :
+    binopX op a b = binopX op a' b' := by
+  rw [bool_operand_as_u64 op a b ha hb, bool_operand_as_u64 op a' b' ha' hb']
+  apply width_independent op _ _ _ _ (embed_wf ha) (embed_wf ha') (embed_wf hb) (embed_wf hb') <;>
+    rw [embed_val, embed_val] <;> assumption
+
+/-- unary minus rejects a `Bool` (`-true` is an error, not `-1`) -/
+theorem neg_bool_error (b : Bool) : negX (.bool b) = .err := rfl
+
+/-- `true == 1`, `false == 0` and nothing else: `==` between a `Bool` and a number compares the
+    number with 0 / 1 exactly, in every representation -/
+theorem bool_eq_number_exact (m : Mode) (p : Bool) (n : N) (hn : NumOK n) :
+    eqV m (.bool p) (.num n) = decide (numKey (boolN p) = numKey n) := by
+  have hb : NumOK (boolN p) := by
+    cases p <;> exact ⟨by simp only [boolN, N.WF, i64Min, i64Max]; decide, trivial⟩
+  have he := eqN_iff_key (boolN p) n hb hn
+  simp only [eqV]
+  cases h : eqN (boolN p) n with
+  | true => exact (decide_eq_true (he.1 h)).symm
+  | false =>
+    have : ¬ numKey (boolN p) = numKey n := fun hk => by rw [he.2 hk] at h; cases h
+    exact (decide_eq_false this).symm
+
+/-- the ordering operators do not look at the value of a `Bool`: every `Bool` sorts before every
+    number (`true < 0` is true), because `Ord` compares the kinds first -/
+theorem bool_before_every_number (p : Bool) (n : N) : cmpV (.bool p) (.num n) = .lt := by
+  have hr : (V.bool p).rank ≠ (V.num n).rank := by
+    rw [rank_cls, rank_cls]; show Cls.bool.rank ≠ Cls.num.rank; decide
+  have hc : compare (V.bool p).rank (V.num n).rank = .lt := by
+    rw [rank_cls, rank_cls]; show compare Cls.bool.rank Cls.num.rank = .lt; decide
+  simp only [cmpV, hr, ne_eq, not_false_eq_true, if_true, hc]
+
+example : binopX .add (.bool true) (.int (.u64 1)) = .ok (.i64 2) ∧
+    binopX .mul (.bool true) (.bool true) = .ok (.i64 1) ∧
+    binopX .floordiv (.bool true) (.int (.i128 2)) = .ok (.i64 0) ∧
+    binopX .sub (.bool false) (.int (.u128 170141183460469231731687303715884105728)) = .err ∧
+    binopX .pow (.int (.i64 2)) (.bool true) = .ok (.i64 2) := by decide
+
+
+/-! ### the tests `odd`, `even`, `divisibleby` on integers of every representation -/
+
+/-- `x is odd` ⟺ `x` is an `i128` and `x % 2 = 1` (Euclidean `%`, as the operator: negative odd
+    numbers are odd); beyond `i128` (`u128` from `2^127`) the test is false -/
+theorem odd_exact (r : NumRepr) (h : r.WF) :
+    isOdd (.int r) = (decide (InI128 r.val) && decide (r.val % 2 = 1)) := by
+  unfold isOdd tryI128
+  show (match (ofRepr r).toI128 with | some v => decide (Int.tmod v 2 ≠ 0) | none => false) = _
+  rw [tryInt_ofRepr h]
+  by_cases hin : InI128 r.val
+  · simp only [hin, if_true, decide_true, Bool.true_and]
+    exact decide_eq_decide.2 (tmod_two_ne_zero_iff _)
+  · simp only [hin, if_false, decide_false, Bool.false_and]
+
+theorem even_exact (r : NumRepr) (h : r.WF) :
+    isEven (.int r) = (decide (InI128 r.val) && decide (r.val % 2 = 0)) := by
+  unfold isEven tryI128
+  show (match (ofRepr r).toI128 with | some v => decide (Int.tmod v 2 = 0) | none => false) = _
+  rw [tryInt_ofRepr h]
+  by_cases hin : InI128 r.val
+  · simp only [hin, if_true, decide_true, Bool.true_and]
+    exact decide_eq_decide.2 (tmod_two_eq_zero_iff _)
+  · simp only [hin, if_false, decide_false, Bool.false_and]
+
+/-- on the signed 128-bit range exactly one of `odd` / `even` holds, whatever the stored width -/
+theorem odd_xor_even (r : NumRepr) (h : r.WF) (hin : InI128 r.val) : isOdd (.int r) = !isEven (.int r) := by
+  rw [odd_exact r h, even_exact r h]
+  simp only [hin, decide_true, Bool.true_and]
+  by_cases h2 : r.val % 2 = 0
+  · have : ¬ r.val % 2 = 1 := by omega
+    simp [h2]
+  · have : r.val % 2 = 1 := by omega
+    simp [this]
+
+/-- `a is divisibleby(b)` ⟺ both are `i128`s, `b ≠ 0` and `a % b = 0` — the same `%` as the
+    operator (`i128::MIN is divisibleby(-1)` is true, no overflow) -/
+theorem divisibleby_exact (a b : NumRepr) (ha : a.WF) (hb : b.WF) :
+    isDivisibleBy (.int a) (.int b) =
+      (decide (InI128 a.val ∧ InI128 b.val) && decide (b.val ≠ 0) && decide (a.val % b.val = 0)) := by
+  unfold isDivisibleBy
+  show (match coerceN (ofRepr a) (ofRepr b) with
+    | some (.i x y) => decide (y ≠ 0) && decide (wrappingRem x y = 0)
+    | some (.f x y) => fmodIsZero x y
+    | none => false) = _
+  rw [coerceN_ofRepr ha hb]
+  by_cases hin : InI128 a.val ∧ InI128 b.val
+  · simp only [hin, and_self, if_true, decide_true, Bool.true_and]
+    congr 1
+    exact decide_eq_decide.2 (wrappingRem_eq_zero_iff _ _)
+  · simp only [hin, if_false, decide_false, Bool.false_and]
+
+/-- the three tests depend on the numbers only, not on the stored widths -/
+theorem tests_width_independent (a a' b b' : NumRepr) (ha : a.WF) (ha' : a'.WF) (hb : b.WF) (hb' : b'.WF)
+    (hva : a.val = a'.val) (hvb : b.val = b'.val) :
+    isOdd (.int a) = isOdd (.int a') ∧ isEven (.int a) = isEven (.int a') ∧
+    isDivisibleBy (.int a) (.int b) = isDivisibleBy (.int a') (.int b') := by
+  rw [odd_exact a ha, odd_exact a' ha', even_exact a ha, even_exact a' ha',
+    divisibleby_exact a b ha hb, divisibleby_exact a' b' ha' hb', hva, hvb]
+  exact ⟨rfl, rfl, rfl⟩
+
+example : isOdd (.int (.i64 (-3))) = true ∧ isEven (.int (.i128 (-170141183460469231731687303715884105728))) = true ∧
+    isOdd (.int (.u128 170141183460469231731687303715884105729)) = false ∧
+    isEven (.int (.u128 170141183460469231731687303715884105729)) = false ∧
+    isDivisibleBy (.int (.i128 (-170141183460469231731687303715884105728))) (.int (.i64 (-1))) = true ∧
+    isDivisibleBy (.int (.u64 7)) (.int (.i64 0)) = false ∧
+    isDivisibleBy (.int (.i64 (-9))) (.int (.u128 3)) = true ∧ isOdd (.bool true) = true := by decide
+
+/-! ### the filters `min` / `max`, `round`, `int` / `float` on `Bool` -/
+
+/-- `[a, b]|min` and `[a, b]|max` return one of the two values, the one whose exact value is the
+    smaller / larger — integers of any width and floats mixed -/
+theorem min_max_exact (a b : N) (ha : NumOK a) (hb : NumOK b) :
+    (minOf a b = a ∨ minOf a b = b) ∧ (maxOf a b = a ∨ maxOf a b = b) ∧
+    numKey (minOf a b) ≤ numKey a ∧ numKey (minOf a b) ≤ numKey b ∧
+    numKey a ≤ numKey (maxOf a b) ∧ numKey b ≤ numKey (maxOf a b) := by
+  have hc := numSpec_wf a b ha.wf hb.wf
+  unfold minOf maxOf
+  rw [hc]
+  by_cases hgt : numKey b < numKey a
+  · have : compare (numKey a) (numKey b) = .gt := compare_gt_of hgt
+    simp only [this, beq_self_eq_true, if_true]
+    refine ⟨Or.inr trivial, Or.inl trivial, ?_, ?_, ?_, ?_⟩ <;> omega
+  · have : (compare (numKey a) (numKey b) == Ordering.gt) = false := by
+      by_cases hlt : numKey a < numKey b
+      · rw [compare_lt_of hlt]; rfl
+      · have : numKey a = numKey b := by omega
+        rw [this, Int.compare_eq_eq.2 rfl]; rfl
+    simp only [this, Bool.false_eq_true, if_false]
+    refine ⟨Or.inl trivial, Or.inr trivial, ?_, ?_, ?_, ?_⟩ <;> omega
+
+/-- `x|round(p)` leaves an integer alone whatever the precision; `true|int` is 1 (a `u64`) -/
+theorem round_int_identity (a : NumRepr) (p : Option Int) : roundInt a p = .ok a := rfl
+theorem int_of_bool_exact (b : Bool) : (intOfBool b).WF ∧ (intOfBool b).val = boolVal b := by
+  cases b <;> decide
+
+/-! ### strings parsed by the `int` filter -/
+
+/-- **an integer text is read exactly**: optional `+`, a `-` for negatives, any number of leading
+    zeros, the decimal digits of `v` — the `int` filter returns `v` when it fits the signed 128-bit
+    range … -/
+theorem int_text_exact (plus : Bool) (k : Nat) (v : Int) (hv : InI128 v) :
+    intOfStr (intText plus k v) = .ok (.i128 v) := by
+  unfold intOfStr
+  rw [parseI128_intText, if_pos hv]
+
+/-- … **and fails when it does not** — it never wraps, saturates or comes back as the neighbouring
+    integer that the float approximation of the text truncates to -/
+theorem int_text_overflow_is_error (plus : Bool) (k : Nat) (v : Int) (hv : ¬ InI128 v) :
+    intOfStr (intText plus k v) = .err := by
+  unfold intOfStr
+  rw [parseI128_intText, if_neg hv]
+  simp only [isIntText_intText, if_true]
+
+example : intOfStr "-170141183460469231731687303715884105728".toList =
+      .ok (.i128 (-170141183460469231731687303715884105728)) ∧
+    intOfStr "-170141183460469231731687303715884105729".toList = .err ∧
+    intOfStr "+0042".toList = .ok (.i128 42) ∧ intOfStr "4_2".toList = .err ∧
+    intOfStr " 42".toList = .err ∧ intOfStr "0x10".toList = .err ∧ intOfStr "+".toList = .err ∧
+    intOfStr "".toList = .err ∧ intOfStr "--1".toList = .err := by decide
+
+
+/-! ### float `**`: the IEEE 754-2008 §9.2.1 special cases as a table
+
+Rows: base, exponent, result — written down from the standard (`pow(x, ±0) = 1` even for NaN,
+`pow(+1, y) = 1` even for NaN, `pow(±0, y)`, `pow(-1, ±∞) = 1`, `pow(x, ±∞)`, `pow(±∞, y)`, a negative
+finite base with a non-integral exponent is invalid), on representatives of every class of base
+(NaN, ±∞, ±0, ±1, magnitudes below and above 1) and exponent (NaN, ±∞, ±0, odd / even / fractional
+of both signs, beyond `2^53`). -/
+
+def fNaN : Nat := 0x7ff8000000000000
+def powTable : List (Nat × Nat × PowRes) := [
+  -- pow(x, ±0) = 1
+  (fNaN, 0, .bits one), (fNaN, 0x8000000000000000, .bits one), (negInf, 0, .bits one), (0, 0, .bits one),
+  (0xc000000000000000, 0x8000000000000000, .bits one),
+  -- pow(+1, y) = 1
+  (one, fNaN, .bits one), (one, posInf, .bits one), (one, negInf, .bits one), (one, 0xc008000000000000, .bits one),
+  -- NaN otherwise propagates
+  (fNaN, one, .nan), (0x4000000000000000, fNaN, .nan), (0xbff0000000000000, fNaN, .nan), (posInf, fNaN, .nan),
+  -- pow(±0, y), y < 0: odd integer -> ±inf, else +inf
+  (0, 0xbff0000000000000, .bits posInf), (0x8000000000000000, 0xbff0000000000000, .bits negInf),
+  (0x8000000000000000, 0xc008000000000000, .bits negInf), (0x8000000000000000, 0xc000000000000000, .bits posInf),
+  (0x8000000000000000, 0xbfe0000000000000, .bits posInf), (0, negInf, .bits posInf), (0x8000000000000000, negInf, .bits posInf),
+  -- pow(±0, y), y > 0: odd integer -> ±0, else +0
+  (0, 0x3ff0000000000000, .bits 0), (0x8000000000000000, 0x3ff0000000000000, .bits 0x8000000000000000),
+  (0x8000000000000000, 0x4008000000000000, .bits 0x8000000000000000), (0x8000000000000000, 0x4000000000000000, .bits 0),
+  (0x8000000000000000, 0x3fe0000000000000, .bits 0), (0x8000000000000000, posInf, .bits 0),
+  -- an odd integer needs its lowest bit: 2^53 + 2 and beyond are even, 2^53 - 1 is odd
+  (0x8000000000000000, 0x433fffffffffffff, .bits 0x8000000000000000), (0x8000000000000000, 0x4340000000000001, .bits 0),
+  -- pow(-1, ±inf) = 1
+  (0xbff0000000000000, posInf, .bits one), (0xbff0000000000000, negInf, .bits one),
+  -- pow(x, -inf): |x| < 1 -> +inf, |x| > 1 -> +0;  pow(x, +inf): |x| < 1 -> +0, |x| > 1 -> +inf
+  (0x3fe0000000000000, negInf, .bits posInf), (0xbfe0000000000000, negInf, .bits posInf),
+  (0x4000000000000000, negInf, .bits 0), (0xc000000000000000, negInf, .bits 0), (posInf, negInf, .bits 0), (negInf, negInf, .bits 0),
+  (0x3fe0000000000000, posInf, .bits 0), (0xbfefffffffffffff, posInf, .bits 0),
+  (0x3ff0000000000001, posInf, .bits posInf), (0xc000000000000000, posInf, .bits posInf), (negInf, posInf, .bits posInf),
+  -- pow(-inf, y): y < 0 odd -> -0, y < 0 else +0, y > 0 odd -> -inf, y > 0 else +inf
+  (negInf, 0xbff0000000000000, .bits 0x8000000000000000), (negInf, 0xc000000000000000, .bits 0), (negInf, 0xbfe0000000000000, .bits 0),
+  (negInf, 0x3ff0000000000000, .bits negInf), (negInf, 0x4008000000000000, .bits negInf), (negInf, 0x4000000000000000, .bits posInf),
+  (negInf, 0x3fe0000000000000, .bits posInf),
+  -- pow(+inf, y): y < 0 -> +0, y > 0 -> +inf
+  (posInf, 0xbff0000000000000, .bits 0), (posInf, 0xbfe0000000000000, .bits 0), (posInf, 0x3fe0000000000000, .bits posInf),
+  (posInf, 0x4008000000000000, .bits posInf),
+  -- a negative finite base with a non-integral exponent is invalid; with an integral one it is not
+  (0xc000000000000000, 0x3fe0000000000000, .nan), (0xbfe0000000000000, 0xc004000000000000, .nan),
+  (0x8000000000000001, 0x3ff8000000000000, .nan),
+  (0xc000000000000000, 0x4008000000000000, .general), (0xc000000000000000, 0xc000000000000000, .general),
+  -- everything else is computed
+  (0x4000000000000000, 0x3fe0000000000000, .general), (0x4024000000000000, 0xc008000000000000, .general),
+  (0x3fe0000000000000, 0x4340000000000000, .general)]
+
+set_option exponentiation.threshold 3000 in
+set_option maxRecDepth 100000 in
+/-- the model's `powSpecial` gives the standard's result on every row -/
+theorem float_pow_special_table : ∀ row ∈ powTable, powSpecial row.1 row.2.1 = row.2.2 := by decide
+
+/-- the two laws that hold for every operand, NaN included -/
+theorem float_pow_zero_exponent (x y : Nat) (hy : mag y = 0) : powSpecial x y = .bits one := by
+  unfold powSpecial; rw [if_pos hy]
+theorem float_pow_one_base (y : Nat) : powSpecial one y = .bits one := by
+  unfold powSpecial
+  by_cases hy : mag y = 0
+  · rw [if_pos hy]
+  · rw [if_neg hy, if_pos (by decide)]
+
+-- small integral powers that are doubles are exact: `2.0 ** 10 = 1024.0`, `(-2.0) ** 3 = -8.0`,
+-- `2.0 ** -2 = 0.25`, `10.0 ** 22 = 1e22`; `10.0 ** 23` is not a double (left to libm)
+set_option exponentiation.threshold 100000 in
+set_option maxRecDepth 100000 in
+example : powF (.f64 0x4000000000000000) (.f64 0x4024000000000000) = .bits 0x4090000000000000 ∧
+    powF (.f64 0xc000000000000000) (.i64 3) = .bits 0xc020000000000000 ∧
+    powF (.u64 2) (.f64 0xc000000000000000) = .bits 0x3fd0000000000000 ∧
+    powF (.f64 0x4024000000000000) (.u64 22) = .bits 0x4480f0cf064dd592 ∧
+    powF (.f64 0x4024000000000000) (.u64 23) = .unknown := by decide
+
+/-! ### source facts behind the round-5 models -/
+
+/-- `is_odd` / `is_even` test `x % 2 != 0` / `x % 2 == 0` of `i128::try_from(v)`; `is_divisibleby`
+    coerces without loss and uses `wrapping_rem`; the `int` filter parses a string as `i128`, then
+    rejects an integer literal, then parses it as `f64`; `f64_to_int` keeps `[-2^127, 2^127)`; a
+    `Bool` converts to an integer as `val as usize` -/
+theorem tie_filter_facts :
+    MJ.Gen.oddEvenTests = [("odd", "!=", 0), ("even", "==", 0)] ∧
+    MJ.Gen.divisiblebyLossy = false ∧ MJ.Gen.divisiblebyIntMethod = "wrapping_rem" ∧
+    MJ.Gen.f64ToIntLimit = 170141183460469231731687303715884105728 ∧
+    MJ.Gen.f64ToIntRange = (">=", "<") ∧
+    MJ.Gen.intFilterStringSteps = ["i128", "is_integer_literal", "f64"] ∧
+    MJ.Gen.boolAsInteger = "val as usize" := by decide
+
+
+/-! ### float `+ - *` are exactly rounded (IEEE-754 round to nearest, ties to even)
+
+`key` is the exact value in units of `2^-1074`.  For finite operands whose result is finite:
+no double is closer to the exact sum / difference / product than the result, and if another double
+is equally close the result is the one with the even significand (its bit pattern is even).  With
+`float_add_exact` … (exact when representable) this pins the result bit for bit. -/
+
+theorem float_add_rounded (a b : Nat) (hfin : isFinite (fadd a b) = true) (m : Nat) :
+    (key a + key b - key (fadd a b)).natAbs ≤ (key a + key b - key m).natAbs ∧
+    ((key a + key b - key (fadd a b)).natAbs = (key a + key b - key m).natAbs →
+      key m ≠ key (fadd a b) → fadd a b % 2 = 0) :=
+  ⟨fadd_nearest a b hfin m, fadd_tie_even a b hfin m⟩
+
+theorem float_sub_rounded (a b : Nat) (hfin : isFinite (fsub a b) = true) (m : Nat) :
+    (key a - key b - key (fsub a b)).natAbs ≤ (key a - key b - key m).natAbs ∧
+    ((key a - key b - key (fsub a b)).natAbs = (key a - key b - key m).natAbs →
+      key m ≠ key (fsub a b) → fsub a b % 2 = 0) := by
+  have h := float_add_rounded a (fneg b) hfin m
+  rw [key_fneg, ← Int.sub_eq_add_neg] at h
+  exact h
+
+theorem float_mul_rounded (a b : Nat) (hfin : isFinite (fmul a b) = true) (m : Nat) :
+    (key a * key b - key (fmul a b) * (scale : Int)).natAbs ≤
+      (key a * key b - key m * (scale : Int)).natAbs ∧
+    ((key a * key b - key (fmul a b) * (scale : Int)).natAbs =
+        (key a * key b - key m * (scale : Int)).natAbs →
+      key m ≠ key (fmul a b) → fmul a b % 2 = 0) :=
+  ⟨fmul_nearest a b hfin m, fmul_tie_even a b hfin m⟩
+
+/-- the rounding function itself: `encodeRat p q` is a double nearest to `p / q`, the even one on
+    a tie — against every bit pattern `m` -/
+theorem round_to_nearest_even (p q : Nat) (hq : 0 < q) (hfin : encodeRat p q < infMag) (m : Nat) :
+    dist p (scaledOfMag (encodeRat p q) * q) ≤ dist p (scaledOfMag m * q) ∧
+    (dist p (scaledOfMag (encodeRat p q) * q) = dist p (scaledOfMag m * q) →
+      scaledOfMag m ≠ scaledOfMag (encodeRat p q) → encodeRat p q % 2 = 0) :=
+  encodeRat_nearest p q hq hfin m
+
+-- non-vacuity: 1 + 2^-53 is a tie between 1 and the next double; it goes to the even one (1.0), and
+-- the competitor 1 + 2^-52 is exactly as far away
+set_option exponentiation.threshold 3000 in
+set_option maxRecDepth 100000 in
+example : fadd 0x3ff0000000000000 0x3ca0000000000000 = 0x3ff0000000000000 ∧
+    isFinite (fadd 0x3ff0000000000000 0x3ca0000000000000) = true ∧
+    (key 0x3ff0000000000000 + key 0x3ca0000000000000 - key 0x3ff0000000000000).natAbs =
+      (key 0x3ff0000000000000 + key 0x3ca0000000000000 - key 0x3ff0000000000001).natAbs ∧
+    fmul 0x3ff0000000000001 0x3ff0000000000001 = 0x3ff0000000000002 := by decide
+
+
+/-! ### strings parsed by the `float` filter: the decimal value, correctly rounded -/
+
+/-- a decimal text `mant · 10^e` with `0 ≤ e ≤ 400` is read as a double nearest to that value (ties to
+    even), against every bit pattern `m` -/
+theorem float_text_rounded_pos (neg : Bool) (M : Nat) (e : Nat) (hM : M ≠ 0) (he : e ≤ 400)
+    (hfin : encodeRat (M * 10 ^ e * scale) 1 < infMag) (m : Nat) :
+    decToBits ⟨neg, M, (e : Int)⟩ = signedBits neg (encodeRat (M * 10 ^ e * scale) 1) ∧
+    dist (M * 10 ^ e * scale) (scaledOfMag (encodeRat (M * 10 ^ e * scale) 1)) ≤
+      dist (M * 10 ^ e * scale) (scaledOfMag m) := by
+  constructor
+  · unfold decToBits
+    simp only [hM, if_false]
+    rw [if_neg (by omega), if_neg (by omega), if_pos (by omega)]
+    simp
+  · have := (encodeRat_nearest (M * 10 ^ e * scale) 1 (by omega) hfin m).1
+    simpa using this
+
+/-- … and with a negative decimal exponent (`mant / 10^e`, `e ≤ 400 + digits`) likewise -/
+theorem float_text_rounded_neg (neg : Bool) (M : Nat) (e : Nat) (hM : M ≠ 0) (he0 : 0 < e)
+    (he : (e : Int) ≤ 400 + decLen M) (hfin : encodeRat (M * scale) (10 ^ e) < infMag) (m : Nat) :
+    decToBits ⟨neg, M, -(e : Int)⟩ = signedBits neg (encodeRat (M * scale) (10 ^ e)) ∧
+    dist (M * scale) (scaledOfMag (encodeRat (M * scale) (10 ^ e)) * 10 ^ e) ≤
+      dist (M * scale) (scaledOfMag m * 10 ^ e) := by
+  constructor
+  · unfold decToBits
+    simp only [hM, if_false]
+    rw [if_neg (by omega), if_neg (by omega), if_neg (by omega)]
+    simp
+  · exact (encodeRat_nearest (M * scale) (10 ^ e) (Nat.pow_pos (by omega)) hfin m).1
+
+-- "0.1", "1e23", "9007199254740993" (ties to even: 2^53), "1.7976931348623159e308" (overflows to inf),
+-- "2.4703282292062327e-324" (rounds down to 0, one digit more rounds up to the smallest subnormal)
+set_option exponentiation.threshold 100000 in
+set_option maxRecDepth 100000 in
+example : parseF64 "0.1".toList = some 0x3fb999999999999a ∧ parseF64 "1e23".toList = some 0x44b52d02c7e14af6 ∧
+    parseF64 "9007199254740993".toList = some 0x4340000000000000 ∧
+    parseF64 "1.7976931348623159e308".toList = some 0x7ff0000000000000 ∧
+    parseF64 "2.4703282292062327e-324".toList = some 0 ∧
+    parseF64 "2.4703282292062328e-324".toList = some 1 ∧
+    parseF64 "-Infinity".toList = some 0xfff0000000000000 ∧ parseF64 "+.5".toList = some 0x3fe0000000000000 ∧
+    parseF64 "1e".toList = none ∧ parseF64 " 1".toList = none ∧ parseF64 "1_0".toList = none ∧
+    parseF64 "0x10".toList = none ∧ parseF64 ".".toList = none := by decide
+
+
+/-- **what `str::parse::<i128>` accepts**: an optional single sign followed by at least one ASCII
+    digit and nothing else — no blanks, no `_`, no radix prefix, no exponent — and the value is the
+    signed decimal value of the digits, inside the `i128` range -/
+theorem int_text_sound (s : List Char) (v : Int) (h : parseI128 s = some v) :
+    InI128 v ∧ ∃ (neg : Bool) (digits : List Char) (n : Nat), digits ≠ [] ∧
+      (∀ c ∈ digits, isDigit c = true) ∧ parseDigits 10 0 digits = some n ∧
+      v = (if neg then -(n : Int) else (n : Int)) ∧
+      (s = digits ∨ s = '+' :: digits ∨ s = '-' :: digits) := by
+  cases s with
+  | nil => simp [parseI128] at h
+  | cons c rest =>
+    by_cases hm : c = '-'
+    · subst hm
+      have hunf : parseI128 ('-' :: rest) =
+          if rest = [] then none else
+            match parseDigits 10 0 rest with
+            | none => none
+            | some n => if (n : Int) ≤ 170141183460469231731687303715884105728 then some (-(n : Int)) else none := by
+        simp [parseI128]
+        split
+        · rfl
+        · cases parseDigits 10 0 rest <;> rfl
+      rw [hunf] at h
+      by_cases hne : rest = []
+      · rw [if_pos hne] at h; cases h
+      · rw [if_neg hne] at h
+        cases hn : parseDigits 10 0 rest with
+        | none => rw [hn] at h; cases h
+        | some n =>
+          rw [hn] at h
+          simp only [] at h
+          by_cases hle : (n : Int) ≤ 170141183460469231731687303715884105728
+          · rw [if_pos hle] at h
+            injection h with h
+            subst h
+            exact ⟨by unfold InI128; omega, true, rest, n, hne, parseDigits_all_digits hn, hn, by simp,
+              Or.inr (Or.inr rfl)⟩
+          · rw [if_neg hle] at h; cases h
+    · by_cases hp : c = '+'
+      · subst hp
+        have hunf : parseI128 ('+' :: rest) =
+            if rest = [] then none else
+              match parseDigits 10 0 rest with
+              | none => none
+              | some n => if (n : Int) < 170141183460469231731687303715884105728 then some (n : Int) else none := by
+          simp [parseI128]
+          split
+          · rfl
+          · cases parseDigits 10 0 rest <;> rfl
+        rw [hunf] at h
+        by_cases hne : rest = []
+        · rw [if_pos hne] at h; cases h
+        · rw [if_neg hne] at h
+          cases hn : parseDigits 10 0 rest with
+          | none => rw [hn] at h; cases h
+          | some n =>
+            rw [hn] at h
+            simp only [] at h
+            by_cases hlt : (n : Int) < 170141183460469231731687303715884105728
+            · rw [if_pos hlt] at h
+              injection h with h
+              subst h
+              exact ⟨by unfold InI128; omega, false, rest, n, hne, parseDigits_all_digits hn, hn, by simp,
+                Or.inr (Or.inl rfl)⟩
+            · rw [if_neg hlt] at h; cases h
+      · have hunf : parseI128 (c :: rest) =
+            match parseDigits 10 0 (c :: rest) with
+            | none => none
+            | some n => if (n : Int) < 170141183460469231731687303715884105728 then some (n : Int) else none := by
+          simp [parseI128, hm, hp]
+          cases parseDigits 10 0 (c :: rest) <;> rfl
+        rw [hunf] at h
+        cases hn : parseDigits 10 0 (c :: rest) with
+        | none => rw [hn] at h; cases h
+        | some n =>
+          rw [hn] at h
+          simp only [] at h
+          by_cases hlt : (n : Int) < 170141183460469231731687303715884105728
+          · rw [if_pos hlt] at h
+            injection h with h
+            subst h
+            exact ⟨by unfold InI128; omega, false, c :: rest, n, by simp, parseDigits_all_digits hn, hn, by simp,
+              Or.inl rfl⟩
+          · rw [if_neg hlt] at h; cases h
+
+/-- **the only ways a string becomes an integer**: it is an integer text inside the range (then
+    exactly that integer), or it is no integer text at all, `str::parse::<f64>` accepts it, and the
+    result is the exact truncation of that float, inside the range -/
+theorem int_filter_string_sound (s : List Char) (r : NumRepr) (h : intOfStr s = .ok r) :
+    (∃ v, parseI128 s = some v ∧ r = .i128 v ∧ InI128 v) ∨
+    (parseI128 s = none ∧ isIntText s = false ∧
+      ∃ b, parseF64 s = some b ∧ isFinite b = true ∧ r.val = truncInt b ∧ r.WF) := by
+  unfold intOfStr at h
+  split at h
+  · rename_i i hi
+    injection h with h
+    exact Or.inl ⟨i, hi, h.symm, (int_text_sound s i hi).1⟩
+  · rename_i hnone
+    split at h
+    · cases h
+    · rename_i hlit
+      split at h
+      · rename_i b hb
+        obtain ⟨hwf, hval, hfin⟩ := int_of_float_exact b r h
+        exact Or.inr ⟨hnone, by simpa using hlit, b, hb, hfin, hval, hwf⟩
+      · cases h
+
+set_option exponentiation.threshold 100000 in
+set_option maxRecDepth 100000 in
+example : parseI128 "+00017".toList = some 17 ∧ parseI128 "-0".toList = some 0 ∧
+    parseI128 "1 ".toList = none ∧ parseI128 "1_0".toList = none ∧ parseI128 "0b1".toList = none ∧
+    parseI128 "1e3".toList = none ∧ parseI128 "٣".toList = none ∧
+    intOfStr "1e3".toList = .ok (.i128 1000) ∧ intOfStr "-1.9".toList = .ok (.i128 (-1)) ∧
+    intOfStr "1e40".toList = .err ∧ intOfStr "nan".toList = .err := by decide
+
+
+-- `true / 2 = 0.5`, `1 / 3` is the correctly rounded quotient, `7 / 0.5 = 14.0`
+set_option exponentiation.threshold 3000 in
+set_option maxRecDepth 100000 in
+example : arithF .div (boolN true) (.u64 2) = some 0x3fe0000000000000 ∧
+    arithF .div (.i64 1) (.u128 3) = some 0x3fd5555555555555 ∧
+    arithF .div (.u64 7) (.f64 0x3fe0000000000000) = some 0x402c000000000000 ∧
+    arithF .add (boolN true) (.f64 0x3ff8000000000000) = some 0x4004000000000000 := by decide
+
+/-- **float `/` is exactly rounded** (the true division `/`, also of two integers after their
+    conversion, and the division inside `//`): the sign is the product of the signs and no double
+    magnitude is closer to `|a| / |b|` than the result's, ties to the even significand -/
+theorem float_div_rounded (a b : Nat) (hb : scaled b ≠ 0) (hfin : isFinite (fdiv a b) = true) (m : Nat) :
+    sign (fdiv a b) = (sign a != sign b) ∧
+    dist (scaled a * scale) (scaled (fdiv a b) * scaled b) ≤ dist (scaled a * scale) (scaledOfMag m * scaled b) ∧
+    (dist (scaled a * scale) (scaled (fdiv a b) * scaled b) = dist (scaled a * scale) (scaledOfMag m * scaled b) →
+      scaledOfMag m ≠ scaled (fdiv a b) → fdiv a b % 2 = 0) := by
+  unfold fdiv at *
+  have hle := encodeRat_le_infMag (scaled a * scale) (scaled b)
+  have hM := finite_signedBits hle hfin
+  obtain ⟨_, _, hs, hmag⟩ := key_signedBits (sign a != sign b) _ hM
+  have hsc : scaled (signedBits (sign a != sign b) (encodeRat (scaled a * scale) (scaled b))) =
+      scaledOfMag (encodeRat (scaled a * scale) (scaled b)) := by
+    show scaledOfMag (mag _) = _
+    rw [hmag]
+  rw [hsc, signedBits_parity]
+  obtain ⟨d1, t1⟩ := encodeRat_nearest (scaled a * scale) (scaled b) (by omega) hM m
+  exact ⟨hs, d1, t1⟩
+
+
+end Round5
 
 /-! ### Source facts the model duplicates
 
